@@ -62,9 +62,10 @@ def check_probe_agreement(P, ctx, rule='C17.probe-agreement'):
         ok = len(jp) == 1 and g.must_pass(jp[0][0]['id'], through_edges=[(disp[0][0]['id'], True)])
     ctx.check(ok, rule, INSERT + ':displacement', s, 'a resident closer to home than the carried entry is displaced and the carried distance becomes the resident\'s')
     # probe distance function is the same function of (nslots, i, h) for registry and Table
-    a, b = probe.probe_function_form(P, 'GC_Probe'), probe.probe_function_form(P, 'Table_Probe')
-    ctx.check(a is not None and a == b, rule, 'GC_Probe==Table_Probe', site(P.fn('GC_Probe')),
-              'the probe distance is i - (h-1), wrapped by the slot count when negative (identical in the registry and in Table)', ['GC: %s' % (a,), 'Table: %s' % (b,)])
+    why = probe.probe_function_eval(P, 'GC_Probe')
+    ctx.check(why is None, rule, 'GC_Probe', site(P.fn('GC_Probe')),
+              'the probe distance of a resident is (slot - home) modulo the slot count, non-negative also for entries that wrapped past the end of the table '
+              '(evaluated with exact C conversions for table sizes 1..7)', [why] if why else None)
     # back-shift loops agree between explicit removal and sweep
     bs = {}
     for f in ('GC_Rem_Ptr', 'GC_Sweep'):
